@@ -392,6 +392,7 @@ impl SocksResponse {
     }
     async fn read_v4<IO: RW>(socket: &mut IO) -> Result<Self, Error> {
         let cmd = socket.read_u8().await.context("read cmd")?;
+        let cmd = if cmd == 90 { SOCKS_REPLY_OK } else { cmd }; //map v4 "request granted" to v5 response code
         let dport = socket.read_u16().await.context("read port")?;
         let dst = socket.read_u32().await.context("read dst")?;
         let target = (dst, dport).into();
